@@ -168,7 +168,7 @@ function mentions(prog, t, pred, fuel = 8) {
       return false;
   }
 }
-function checkSubsetOperand(prog, t, fuel = 8) {
+function checkSubsetOperand(prog, t, fuel = 8, seen = new Set()) {
   if (fuel <= 0) unsupported("subset operand too deep");
   if (!SUBSET_OK.has(t.k)) unsupported("subset operand kind " + t.k);
   switch (t.k) {
@@ -176,25 +176,29 @@ function checkSubsetOperand(prog, t, fuel = 8) {
       if (["any", "unknown", "object", "void", "never", "Date", "bigint"].includes(t.name)) unsupported("subset operand prim " + t.name);
       return;
     case "union":
-      t.m.forEach((x) => checkSubsetOperand(prog, x, fuel - 1));
+      t.m.forEach((x) => checkSubsetOperand(prog, x, fuel - 1, seen));
       return;
     case "array":
-      return checkSubsetOperand(prog, t.e, fuel - 1);
+      return checkSubsetOperand(prog, t.e, fuel - 1, seen);
     case "tuple":
       if (t.rest) unsupported("subset operand tuple rest");
-      t.items.forEach((x) => checkSubsetOperand(prog, x, fuel - 1));
+      t.items.forEach((x) => checkSubsetOperand(prog, x, fuel - 1, seen));
       return;
     case "object":
       if ((t.index || []).length) unsupported("subset operand index signature");
       t.props.forEach((p) => {
         if (p.opt) unsupported("subset operand optional property");
-        checkSubsetOperand(prog, p.t, fuel - 1);
+        checkSubsetOperand(prog, p.t, fuel - 1, seen);
       });
       return;
     case "ref": {
       const d = prog.get(t.name);
       if (d.kind === "enum") return;
-      return checkSubsetOperand(prog, norm(prog, prog.unfold(t)), fuel - 1);
+      // a recursive operand is fine (membership is decided with fuel): each name is unfolded once
+      const key = t.name + JSON.stringify(t.args ?? []);
+      if (seen.has(key)) return;
+      seen.add(key);
+      return checkSubsetOperand(prog, norm(prog, prog.unfold(t)), fuel, seen);
     }
   }
 }
